@@ -13,6 +13,7 @@ import (
 	gogodesc "github.com/gogo/protobuf/protoc-gen-gogo/descriptor"
 	golang "github.com/golang/protobuf/proto"
 	"google.golang.org/protobuf/proto"
+	"google.golang.org/protobuf/reflect/protoreflect"
 	"google.golang.org/protobuf/types/descriptorpb"
 	"google.golang.org/protobuf/types/known/durationpb"
 	"google.golang.org/protobuf/types/known/structpb"
@@ -236,6 +237,9 @@ type NCase struct {
 	Inflate uint64 `json:"inflate,omitempty"`
 	// decode side: the target is not fresh but holds this (other) value of the same flavour
 	Prior *NestedSpec `json:"prior,omitempty"`
+	// encode side (Google v2 runtime-only flavours): the message object held the Prior value, was sized and
+	// marshaled through csproto, and was then changed in place to the value under test
+	Reused bool `json:"reused,omitempty"`
 }
 
 // requiredUnset: the nested message is a proto2 message whose required fields are unset - its runtime refuses
@@ -307,6 +311,17 @@ func oracleC19(c *NCase) (f *ev.Failure) {
 		m, _ := c.Nested.build()
 		if run == 0 {
 			m = msg
+		}
+		if pm, ok := m.(proto.Message); ok && c.Reused && c.Prior != nil && c.Prior.Flavour == fl && fl != "gv2-nil" {
+			// a message object with a history: another value, sized and marshaled, then changed in place
+			old, _ := c.Prior.build()
+			om := old.(proto.Message)
+			_ = csproto.Size(om)
+			_, _ = csproto.Marshal(om)
+			r := om.ProtoReflect()
+			r.Range(func(fd protoreflect.FieldDescriptor, _ protoreflect.Value) bool { r.Clear(fd); return true })
+			proto.Merge(om, pm)
+			m = om
 		}
 		e := csproto.NewEncoder(buf)
 		for i, v := range c.Before {
@@ -449,6 +464,7 @@ func genNCase(t *rapid.T) *NCase {
 		c.Prior = &NestedSpec{}
 		genNested(t, c.Prior, n.Flavour, false)
 		c.Prior.Empty = false
+		c.Reused = strings.HasPrefix(n.Flavour, "gv2-") && rapid.Bool().Draw(t, "reusedenc")
 	}
 	return c
 }
@@ -493,7 +509,7 @@ func genNested(t *rapid.T, n *NestedSpec, flavour string, mayFail bool) {
 	}
 }
 
-const ruleC19 = "case = nested message of one of the flavours {MarshalTo stub, Marshal-only stub, plain gogo (descriptor.DescriptorProto), plain pre-APIv2 Google v1 struct with XXX_ methods, plain Google v2 incl. well-known types and typed nil, proto2 message with required fields known only to Google v2 / gogo (unset => its runtime refuses to marshal it and to unmarshal the empty payload)} x value (incl. empty; nested sizes at the 1-, 2- and 3-byte length-prefix limits, deterministic sweep for the stubs) x decode target {fresh, already holding another value of the flavour} x 0..3 scalar fields before and after x field number up to 2^29-1 x failing nested marshaler/unmarshaler x declared length inflated beyond the buffer; " +
+const ruleC19 = "case = nested message of one of the flavours {MarshalTo stub, Marshal-only stub, plain gogo (descriptor.DescriptorProto), plain pre-APIv2 Google v1 struct with XXX_ methods, plain Google v2 incl. well-known types and typed nil, proto2 message with required fields known only to Google v2 / gogo (unset => its runtime refuses to marshal it and to unmarshal the empty payload)} x value (incl. empty; nested sizes at the 1-, 2- and 3-byte length-prefix limits, deterministic sweep for the stubs) x decode target {fresh, already holding another value of the flavour} x encoded object {fresh, Google v2 message that held another value, was sized and marshaled, then changed in place} x 0..3 scalar fields before and after x field number up to 2^29-1 x failing nested marshaler/unmarshaler x declared length inflated beyond the buffer; " +
 	"oracle: exactly-sized sentinel-backed buffer == prefix|key|varint(len M)|M|suffix with M=csproto.Marshal(m); DecodeNested advances by exactly prefix+len, message equal, suffix decodes, nested errors propagate (errors.Is), inflated length is rejected with 0 calls of the nested decoder; " +
 	"non-trivial = non-empty nested message in a flavour other than MarshalTo, or a failing stub, or an inflated length; distinct by case content"
 
@@ -534,6 +550,9 @@ func TestC19(t *testing.T) {
 		}
 		if c.Prior != nil {
 			rec.Class("reused-decode-target")
+		}
+		if c.Reused {
+			rec.Class("encoded-message-was-marshaled-before-and-changed-since")
 		}
 		if c.Nested.requiredUnset() {
 			rec.Class("required-fields-unset")
